@@ -86,7 +86,10 @@ def process_graphql_query(
     """
     schema.validate()
 
-    instrumentation = instrumentation or Instrumentation()
+    # `is None`: an instrumentation object may be falsy (e.g. a tracer that is
+    # an empty collection when the request starts).
+    if instrumentation is None:
+        instrumentation = Instrumentation()
     runtime = runtime or BlockingRuntime()
 
     instrumentation.on_query_start()
